@@ -47,7 +47,7 @@ CHECKS = {
         "DESIGN.md section 4 C05",
     ),
     "C06": (
-        "AST -> IR -> z3 bounded model checking (QF_BV) of the real dispatch functions over all schedules; models replayed on real threads / asyncio tasks through gated queue and lock",
+        "AST -> IR -> z3 bounded model checking (QF_BV) of the real dispatch functions over all schedules, models replayed on real threads / asyncio tasks through gated queue and lock; plus symbolic execution of the real code with other senders' sends injected at every shared operation (solver-enumerated injection points)",
         "The dispatch loop's current source is lowered to a transition system on every run; reachability of overlap / duplicate or misordered processing / "
         "stranded event / held lock is decided by z3 for every schedule of 2-3 senders within the unrolling bound (unwinding assertion discharged); every "
         "model is confirmed on the real engine before it is reported.",
